@@ -292,6 +292,9 @@ func paramType(p Param, positional bool) reflect.Type {
 		return valType(p.T)
 	case PGroup:
 		if p.NamedSlice && !IsIface(p.T) && !isVal(p.T) && !isAlt(p.T) {
+			if p.NamedAlt {
+				return ktTypes[p.T]
+			}
 			return ksTypes[p.T]
 		}
 		return reflect.SliceOf(valType(p.T))
@@ -335,6 +338,12 @@ func resultType(f *Func, r Result, top bool) reflect.Type {
 		}
 		return valType(r.T)
 	case RGroup:
+		if f.Role == RoleDec && r.NamedRes > 0 && r.T >= 0 && r.T < NumK && !isVal(r.T) && !isAlt(r.T) {
+			if r.NamedRes == 2 {
+				return ktTypes[r.T]
+			}
+			return ksTypes[r.T]
+		}
 		if r.Flatten || f.Role == RoleDec {
 			return reflect.SliceOf(valType(r.T))
 		}
